@@ -225,10 +225,71 @@ pub broadcast proof fn axiom_vec_value_ext(a: Vec<Value>, b: Vec<Value>)
 pub assume_specification [<ValueType as PartialEq>::eq](a: &ValueType, b: &ValueType) -> (r: bool) ensures r == (*a == *b);
 pub assume_specification [<Value as PartialEq>::eq](a: &Value, b: &Value) -> (r: bool) ensures r == value_eq(*a, *b);
 pub assume_specification [<Operator as PartialEq>::eq](a: &Operator, b: &Operator) -> (r: bool) ensures r == op_eq(*a, *b);
+// the same facts through vstd's spec traits (used for comparisons through references, e.g. `a == &Operator::RootNode`)
+impl vstd::std_specs::cmp::PartialEqSpecImpl for Operator {
+    open spec fn obeys_eq_spec() -> bool { true }
+    open spec fn eq_spec(&self, o: &Operator) -> bool { op_eq(*self, *o) }
+}
+impl vstd::std_specs::cmp::PartialEqSpecImpl for Value {
+    open spec fn obeys_eq_spec() -> bool { true }
+    open spec fn eq_spec(&self, o: &Value) -> bool { value_eq(*self, *o) }
+}
 pub assume_specification [<Value as Clone>::clone](v: &Value) -> (r: Value) ensures r == *v;
 pub assume_specification [<Operator as Clone>::clone](v: &Operator) -> (r: Operator) ensures r == *v;
 pub assume_specification [<EvalexprError as Clone>::clone](v: &EvalexprError) -> (r: EvalexprError) ensures r == *v;
 pub assume_specification [<Token as Clone>::clone](v: &Token) -> (r: Token) ensures r == *v;
 pub assume_specification [<PartialToken as Clone>::clone](v: &PartialToken) -> (r: PartialToken) ensures r == *v;
 pub assume_specification [<Node as Clone>::clone](v: &Node) -> (r: Node) ensures r == *v;
+} // verus!
+
+::vstd::prelude::verus! {
+// ---- std::iter::Peekable (no vstd specification): ghost view = the remaining items
+#[verifier::external_type_specification]
+#[verifier::external_body]
+#[verifier::reject_recursive_types(I)]
+pub struct ExPeekable<I: Iterator>(std::iter::Peekable<I>);
+pub uninterp spec fn pk_rem<I: Iterator>(p: &std::iter::Peekable<I>) -> Seq<I::Item>;
+pub assume_specification<I: Iterator>[ <std::iter::Peekable<I> as Iterator>::next ](p: &mut std::iter::Peekable<I>) -> (r: Option<I::Item>)
+    ensures
+        pk_rem(old(p)).len() == 0 ==> r.is_none() && pk_rem(final(p)) == pk_rem(old(p)),
+        pk_rem(old(p)).len() > 0 ==> r == Some(pk_rem(old(p))[0]) && pk_rem(final(p)) == pk_rem(old(p)).drop_first();
+pub assume_specification<'a, I: Iterator>[ std::iter::Peekable::<I>::peek ](p: &'a mut std::iter::Peekable<I>) -> (r: Option<&'a I::Item>)
+    ensures
+        pk_rem(final(p)) == pk_rem(old(p)),
+        pk_rem(old(p)).len() == 0 ==> r.is_none(),
+        pk_rem(old(p)).len() > 0 ==> r.is_some() && *r.unwrap() == pk_rem(old(p))[0];
+// X13: `tokens.iter().peekable()` / `string.chars().peekable()` are outlined into these helpers (Verus cannot
+// attach a specification to the provided trait method Iterator::peekable); the body is the original expression
+#[verifier::external_body]
+pub fn peekable_tokens<'a>(tokens: &'a Vec<Token>) -> (r: std::iter::Peekable<core::slice::Iter<'a, Token>>)
+    ensures pk_rem(&r).len() == tokens.len(), forall|i: int| 0 <= i < tokens.len() ==> *#[trigger] pk_rem(&r)[i] == tokens[i]
+{ tokens.iter().peekable() }
+#[verifier::external_body]
+pub fn peekable_chars<'a>(string: &'a str) -> (r: std::iter::Peekable<std::str::Chars<'a>>)
+    ensures pk_rem(&r) == string@
+{ string.chars().peekable() }
+
+// ---- core::mem::discriminant: equal exactly for values of the same enum variant
+#[verifier::external_type_specification]
+#[verifier::external_body]
+#[verifier::reject_recursive_types(T)]
+pub struct ExDiscriminant<T>(core::mem::Discriminant<T>);
+pub uninterp spec fn discr_spec<T>(v: T) -> core::mem::Discriminant<T>;
+pub assume_specification<T>[ core::mem::discriminant::<T> ](v: &T) -> (r: core::mem::Discriminant<T>) ensures r == discr_spec(*v);
+pub assume_specification<T>[ <core::mem::Discriminant<T> as PartialEq>::eq ](a: &core::mem::Discriminant<T>, b: &core::mem::Discriminant<T>) -> (r: bool) ensures r == (*a == *b);
+pub open spec fn op_variant(op: Operator) -> int {
+    match op {
+        Operator::RootNode => 0, Operator::Add => 1, Operator::Sub => 2, Operator::Neg => 3, Operator::Mul => 4, Operator::Div => 5,
+        Operator::Mod => 6, Operator::Exp => 7, Operator::Eq => 8, Operator::Neq => 9, Operator::Gt => 10, Operator::Lt => 11,
+        Operator::Geq => 12, Operator::Leq => 13, Operator::And => 14, Operator::Or => 15, Operator::Not => 16, Operator::Assign => 17,
+        Operator::AddAssign => 18, Operator::SubAssign => 19, Operator::MulAssign => 20, Operator::DivAssign => 21, Operator::ModAssign => 22,
+        Operator::ExpAssign => 23, Operator::AndAssign => 24, Operator::OrAssign => 25, Operator::Tuple => 26, Operator::Chain => 27,
+        Operator::Const { .. } => 28, Operator::VariableIdentifierWrite { .. } => 29, Operator::VariableIdentifierRead { .. } => 30,
+        Operator::FunctionIdentifier { .. } => 31,
+    }
+}
+#[verifier::external_body]
+pub broadcast proof fn axiom_discr_operator(a: Operator, b: Operator)
+    ensures (#[trigger] discr_spec(a) == #[trigger] discr_spec(b)) <==> op_variant(a) == op_variant(b)
+{}
 } // verus!
